@@ -407,7 +407,7 @@ class Env:
 
 class Gen:
     def __init__(self, rng, max_depth=4, stream='dyadic', avoid_pf11=0.9, measure_p=0.45, drop_p=0.3, zero_p=0.0,
-                 int_chan_p=0.0, plain_t_p=0.0, nest_wrap_p=0.0, typed_p=0.0, reuse_p=0.0):
+                 int_chan_p=0.0, plain_t_p=0.0, nest_wrap_p=0.0, typed_p=0.0, reuse_p=0.0, t_param_p=0.0):
         # the last four switch on additional shapes (all off by default, the default stream is unchanged):
         #   int_chan_p   probability that a case uses integer channel ids 0, 1, ... (and renamings 'A' <-> 0)
         #   plain_t_p    probability that a FunctionPT's expression is the time variable itself
@@ -417,6 +417,9 @@ class Gen:
         #   reuse_p      probability that a case constructs its MappingPTs from caller-owned dicts that are re-used and
         #                overwritten afterwards (`build_reusing_dicts`)
         self.reuse_p = reuse_p
+        #   t_param_p    probability that a case whose only `t`-sensitive nodes are FunctionPTs gets a scope entry
+        #                called `t` (`scope_with_t`): an ordinary parameter / loop index renamed to `t`, or an extra value
+        self.t_param_p = t_param_p
         self.int_chan_p = int_chan_p
         self.plain_t_p = plain_t_p
         self.nest_wrap_p = nest_wrap_p
@@ -968,6 +971,75 @@ def strip(spec):
     return spec
 
 
+def _strings(node, out: list, skip=('k', 'id', 'ch', 'op')):
+    if isinstance(node, dict):
+        for k, v in node.items():
+            if k not in skip and not k.startswith('_'):
+                _strings(v, out)
+    elif isinstance(node, (list, tuple)):
+        for v in node:
+            _strings(v, out)
+    elif isinstance(node, str):
+        out.append(node)
+
+
+def _rename(node, pat, skip=('k', 'id', 'ch', 'op')):
+    if isinstance(node, dict):
+        return {k: (v if k in skip else _rename(v, pat)) for k, v in node.items() if not k.startswith('_')}
+    if isinstance(node, (list, tuple)):
+        return [_rename(v, pat) for v in node]
+    if isinstance(node, str):
+        return pat.sub('t', node)
+    return node
+
+
+def scope_with_t(rng, case: dict) -> Optional[dict]:
+    """A variant of `case` whose scope has an entry called `t` while FunctionPTs are instantiated: one ordinary
+    parameter (a wait time, a voltage, a count, a mapped name) or one loop index is *renamed* to `t` everywhere, or an
+    extra parameter `t` is supplied.  `t` is the bound time variable of a FunctionPT's formula and an ordinary name
+    everywhere else, so the tree plays what it denotes.  Only for trees whose only `t`-sensitive nodes are FunctionPTs:
+    no scalar ArithmeticPT / ParallelChannelPT (known finding PF-14 of C03) and no FunctionPT that mentions the renamed
+    name itself.  None if the tree does not qualify."""
+    spec = strip(case['spec'])
+    kinds = spec_kinds(spec)
+    if 'func' not in kinds or 'arith' in kinds or 'par' in kinds:
+        return None
+    in_func: list = []
+    for n in spec_nodes(spec):
+        if n['k'] == 'func':
+            _strings(n, in_func)
+    everywhere: list = []
+    _strings(spec, everywhere)
+
+    def occurs(name, strings):
+        pat = re.compile(r'(?<![A-Za-z0-9_.])%s(?![A-Za-z0-9_])' % re.escape(name))
+        return any(pat.search(x) for x in strings)
+
+    if occurs('t', [x for x in everywhere if x not in in_func]) or 't' in case['params']:
+        return None
+    names = set(case['params'])
+    for n in spec_nodes(spec):
+        if n['k'] == 'for':
+            names.add(n['idx'])
+        if n['k'] == 'map':
+            names.update(k for k, _ in (n.get('pm') or []))
+    cands = sorted(x for x in names if isinstance(x, str) and occurs(x, everywhere) and not occurs(x, in_func))
+    out = dict(case)
+    if cands and rng.random() < 0.75:
+        name = rng.choice(cands)
+        pat = re.compile(r'(?<![A-Za-z0-9_.])%s(?![A-Za-z0-9_])' % re.escape(name))
+        out['spec'] = _rename(spec, pat)
+        out['params'] = {('t' if k == name else k): v for k, v in case['params'].items()}
+    else:
+        out['spec'] = spec
+        out['params'] = dict(case['params'], t=float(F(rng.randrange(1, 17), 4)))
+    try:
+        build(out['spec'])
+    except Exception:  # noqa -- e.g. a mapping that may not mention the renamed name any more
+        return None
+    return out
+
+
 PTYPE_TAGS = ('int', 'float', 'i64', 'f64', 'tt')
 
 
@@ -1051,6 +1123,8 @@ def random_case(rng, max_depth=4, stream='dyadic', **kw) -> dict:
         used = pt.parameter_names
         params = {k: v for k, v in values.items() if k in used or rng.random() < 0.2}
         case = {'spec': spec, 'params': params, 'cm': cm, 'mm': mm, 'single': []}
+        if g.t_param_p and rng.random() < g.t_param_p:
+            case = scope_with_t(rng, case) or case
         if g.typed_p and rng.random() < g.typed_p:
             case['ptypes'] = draw_ptypes(rng, params)
         if g.reuse_p and rng.random() < g.reuse_p:
